@@ -235,6 +235,10 @@ Record gobs := mkgobs { o_out : cout; o_loc : amap; o_trk : amap; o_rem : amap; 
 Inductive hev :=
 | HEv (ev : cev)
 | HNop (r : nat)                            (* an action the implementation refused without touching anything *)
+| HPull (ev : cev) (failed : bool)          (* RepoCache.Pull (ev = the VPull with the merge order read from the tracking refs): only the error is
+                                               observed; repaired code: every result is read, the error is reported iff one entity was refused *)
+| HStale (r k : nat) (failed : bool)        (* Mutate + Commit of identity k through an IdentityCache obtained before a pull replaced it in the
+                                               cache: repaired code refuses the commit (entityUpdated has run for the loaded instance) *)
 | HObserve (r : nat) (order : list nat) (live : views) (rebuilt : views).
 Record case := mkcase { c_cap : nat; c_steps : list (hev * gobs); c_store : store; c_ops : optab; c_idrank : list (nat * N) }.
 
@@ -252,6 +256,32 @@ Definition git_agrees (cw : cworld) (r : nat) (o : gobs) : bool :=
   K_World.amap_eqb (locals (ww sw) r) (o_loc o) && K_World.amap_eqb (asort (track_of sw r)) (o_trk o) && K_World.amap_eqb (asort (remote sw)) (o_rem o) &&
   N.eqb (clk (rep_of (ww sw) r)) (o_clk o) && N.eqb (cclk (rep_of (ww sw) r)) (o_cclk o) && Nat.eqb (length (st (ww sw))) (o_nst o) &&
   list_eqb pnn_eqb (ilens (iloc (iw cw) r)) (o_iloc o) && list_eqb pnn_eqb (ilens (itrk (iw cw) r)) (o_itrk o) && list_eqb pnn_eqb (ilens (i_rem (iw cw))) (o_irem o).
+
+(* Close with uncommitted operations (repaired code): every loaded entity that still needs a commit is read again from its ref and its
+   excerpt and index document get the committed content (no ref: both are dropped); the staged operations die with the process *)
+Definition forget_sub {G} (gf : nat -> option G) (c : sub G) : sub G :=
+  fold_left (fun acc p => if is_dirty (snd p)
+                          then match gf (fst p) with Some g => merged true g (fst p) acc | None => removed (fst p) acc end
+                          else acc) (sl c) c.
+Definition forget (cw : cworld) (r : nat) : cworld :=
+  let u := ucache_of cw r in
+  set_uc cw r {| cb := forget_sub (gfb (gw cw) r) (cb u); ci := forget_sub (gfi (iw cw) r) (ci u) |}.
+Definition before_ev (cw : cworld) (ev : cev) : cworld := match ev with VReopen r _ => forget cw r | _ => cw end.
+Definition is_invalid (s : mstatus) : bool := K_World.mstatus_eqb s MInvalid.
+
+(* closing with an uncommitted operation (audit C11-A1): the model's reopen is undefined there; K_C11.forget (the repaired Close) first
+   gives the excerpt and the index document of the dirty bug the committed content: the reopened cache equals the rebuilt one *)
+Definition witness_close_staged : list cev :=
+  [VIdNew 0 0 1%N; VNew 0 10%N 1%N [100%N]; VResolve 0 0; VStage 0 0 101%N].
+Example close_staged_runs_fixed :
+  exists cw, crun fixed 2 (cw0 2) witness_close_staged = Some cw /\ quiescentb_at cw 0 = false /\
+  kget 0 (sx (cb (ucache_of cw 0))) = Some {| m_base := (0%nat, [100%N]); m_staged := [101%N] |} /\
+  cstep fixed 2 cw (VReopen 0 0) = None /\
+  exists cw', cstep fixed 2 (forget cw 0) (VReopen 0 0) = Some (cw', CDone) /\
+              sx (cb (ucache_of cw' 0)) = rebuild (bug_git cw' 0) /\ si (cb (ucache_of cw' 0)) = rebuild (bug_git cw' 0) /\
+              sl (cb (ucache_of cw' 0)) = [].
+Proof. eexists. split; [vm_compute; reflexivity|]. repeat split; try (vm_compute; reflexivity).
+  eexists. split; [vm_compute; reflexivity|]. repeat split; vm_compute; reflexivity. Qed.
 
 Section Replay.
 Variable V : variant.
@@ -290,7 +320,7 @@ Fixpoint replay (cw : cworld) (steps : list (hev * gobs)) (i : nat) : cworld * o
   | (h, o) :: t =>
       match h with
       | HEv ev =>
-          match cstep V (c_cap c) cw ev with
+          match cstep V (c_cap c) (before_ev cw ev) ev with
           | None => (cw, Some (i, 100))
           | Some (cw', out) =>
               if negb (cout_eqb out (o_out o)) then (cw', Some (i, 101))
@@ -298,6 +328,20 @@ Fixpoint replay (cw : cworld) (steps : list (hev * gobs)) (i : nat) : cworld * o
               else replay cw' t (S i)
           end
       | HNop r => if git_agrees cw r o then replay cw t (S i) else (cw, Some (i, 102))
+      | HPull ev failed =>
+          match cstep V (c_cap c) cw ev with
+          | Some (cw', CPulled is bs) =>
+              if negb (Bool.eqb failed (existsb is_invalid (is ++ bs))) then (cw', Some (i, 101))
+              else if negb (git_agrees cw' (rep_ev ev) o) then (cw', Some (i, 102))
+              else replay cw' t (S i)
+          | Some (cw', _) => (cw', Some (i, 101))
+          | None => (cw, Some (i, 100))
+          end
+      | HStale r k failed =>
+          let u := ucache_of cw r in
+          let cw' := set_uc cw r {| cb := cb u; ci := updated k (ci u) |} in
+          if negb failed then (cw', Some (i, 101))
+          else if git_agrees cw' r o then replay cw' t (S i) else (cw', Some (i, 102))
       | HObserve r order live _ =>
           let '(cw', v) := predict cw r order in
           match views_diff v live with
@@ -332,7 +376,7 @@ Definition step_ok (h : hev * gobs) : bool :=
 (* "later edits made through the cache build on the merged history": a Commit (or CommitAsNeeded) of bug e through the cache of user r
    that reports success leaves r's ref of e on a descendant of where it was after r's previous step (only r's own steps move r's refs; a pull
    in between has put the merged head there).  Evaluated on the refs and the commit graph as read through RepoData. *)
-Definition hev_rep (h : hev) : nat := match h with HEv ev => rep_ev ev | HNop r => r | HObserve r _ _ _ => r end.
+Definition hev_rep (h : hev) : nat := match h with HEv ev => rep_ev ev | HNop r => r | HPull ev _ => rep_ev ev | HStale r _ _ => r | HObserve r _ _ _ => r end.
 Definition commit_builds_on (s : store) (prev : amap) (h : hev) (o : gobs) : bool :=
   match h, o_out o with
   | HEv (VCommit _ e _ _), CDone | HEv (VCommitAsNeeded _ e _ _), CDone =>
